@@ -47,6 +47,7 @@ def value_sources(work):
             "", "s", "é", "{}", "{", "}", "{:", "{0", "{:>}", "{:999999999999999999999}", "{99999999999999999999}",
             "{18446744073709551615}", "{18446744073709551614}", "{18446744073709551616}", "{9223372036854775807}", "{9223372036854775808}",
             "{4294967295}", "{4294967296}", "{18446744073709551615:>3}", "{0}{18446744073709551615}", "{:.18446744073709551615}", "{:x}", "{:5b}",
+            "{:4}", "{:>6}", "{:*<5}", "{:1}", "{0:7}{0:3}", "ééé", "Ålbæk", "日本語テキスト", "\U0001F496\U0001F496", "é",
             "r", "w", "a", "x", "rw", "/", "/nonexistent/dir/file", "abc\ndef", "9" * 40, "1e400", "-0", "0x10", "  12  ",
             True, False, None,
             Arr([]), Arr([1]), Arr([1, "a", 2.5]), Arr([Byte(255), Byte(0)]), Arr([Char("a"), Char("b")]),
@@ -122,6 +123,11 @@ FILTER_PROGRAMS = [
     "@ true { let f = fn() { $1 }; puts(f()); }", "@ true { fn g() { return $2; } puts(g()); }",
     "let p = $0; puts(p); @ true", "puts($1);", "@ true { exit(3); }", "@ true { let a = []; loop { push(a, $0); if len(a) > 50 { break; } } }",
     "@ (fn() { true })()", "@ true { @ true { puts(1); } }", "@ end { @ end { } }", "@ end { } @ end { }",
+    # return must stay rejected wherever it stands in a filter action, also after nested constructs
+    "@ true { @ true { } return; }", "@ true { @ true { puts(1); } if PL < 100 { return; } puts(2); }", "@ end { @ end { } return 1; }",
+    "@ true { fn g() { return 1; } return g(); }", "@ true { let f = fn() { return 2; }; f(); return; }", "@ true { { return; } }",
+    "@ true { loop { return; } }", "@ true { match 1 { 1 => { return; }, _ => { } } }", "@ true { if true { @ true { } } return; }",
+    "fn outer() { @ true { return 5; } } outer();", "@ true { @ true { @ true { } } return; }",
     # filters keep running on the VM that a failed prelude or a failed action left behind
     "fn f() { f() } f(); @ true { }", "fn f() { f() } f(); @ true @ end { puts(NP); }", "fn f() { f() } @ true { f(); } @ end { puts(1); }",
     "fn f() { f() } @ end { f(); }", "1 / 0; @ true { puts(NP); } @ end { puts(NP); }",
@@ -185,6 +191,12 @@ def run(chk):
                 jobs.append(("builtin", b, "%s(%s, %s, %s)" % (b, rng.choice(srcs), rng.choice(srcs), rng.choice(srcs))))
             for _ in range(10 if quick else 100):
                 jobs.append(("builtin", b, "%s(%s)" % (b, ", ".join(rng.choice(srcs) for _ in range(4)))))
+        # the format mini-language: every format text with every argument value
+        fmts = [x for x in srcs if x.startswith("\"{") or x.startswith("\"}")]
+        for b in ("format", "print", "println", "eprint", "eprintln"):
+            for f in fmts:
+                for x in srcs:
+                    jobs.append(("format", b, "%s(%s, %s)" % (b, f, x)))
         # chains: results of builtins flowing into other builtins and operators
         for _ in range(3000 if quick else 60000):
             a, b = rng.choice(BUILTINS), rng.choice(BUILTINS)
